@@ -102,7 +102,7 @@ func (p *c03) rot(ctx core.Ctx) int { return ctx.Pick(8, len(c03Truthy)) }
 
 func (p *c03) Plan(ctx core.Ctx) int {
 	nChain := len(p.shapes(ctx)) * len(c03Placements) * 2 * p.rot(ctx)
-	nUni := (len(c03Falsy) + len(c03Truthy) + len(c03Undecided) + len(c03UniformOnly)) * 8
+	nUni := (len(c03Falsy) + len(c03Truthy) + len(c03Undecided) + len(c03UniformOnly)) * 9
 	return nChain + nUni + len(c03LazyCases())
 }
 
@@ -110,19 +110,20 @@ func (p *c03) Gen(ctx core.Ctx, i int) any {
 	shapes := p.shapes(ctx)
 	rot := p.rot(ctx)
 	nChain := len(shapes) * len(c03Placements) * 2 * rot
-	if nUni := (len(c03Falsy) + len(c03Truthy) + len(c03Undecided) + len(c03UniformOnly)) * 8; i >= nChain+nUni {
+	if nUni := (len(c03Falsy) + len(c03Truthy) + len(c03Undecided) + len(c03UniformOnly)) * 9; i >= nChain+nUni {
 		l := c03LazyCases()[i-nChain-nUni]
 		return c03Case{Part: "lazy", Lazy: &l}
 	}
 	if i >= nChain {
 		j := i - nChain
 		all := append(append(append(append([]TV{}, c03Falsy...), c03Truthy...), c03Undecided...), c03UniformOnly...)
-		v := all[j/8]
+		v := all[j/9]
 		// shadow: the value is the item of a loop whose variable shadows a truthy outer variable of the same name;
 		// title, json: the variable is named like a built-in template function
 		// tag: a struct field addressed by its JSON tag; dash: a map key with a dash; idx: a numeric dotted step -
 		// paths that only the variable stack resolves, not the expression engine
-		path := []string{"v", "o.v", "shadow", "title", "json", "tag", "dash", "idx"}[j%8]
+		// varidx: a map read through a variable key (sel[k])
+		path := []string{"v", "o.v", "shadow", "title", "json", "tag", "dash", "idx", "varidx"}[j%9]
 		return c03Case{Part: "uniform", Val: &v, Path: path}
 	}
 	r := i % rot
@@ -546,6 +547,14 @@ func (p *c03) execUniform(c c03Case) core.Obs {
 			data["l"] = []any{v.Go()}
 			e = "l.0"
 		}
+	} else if c.Path == "varidx" {
+		if v.K == "missing" {
+			o.Cell("skipped/missing-in-container")
+			return o
+		}
+		data["sel"] = map[string]any{"kk": v.Go()}
+		data["k"] = "kk"
+		e = "sel[k]"
 	} else if c.Path == "title" || c.Path == "json" {
 		if v.K == "missing" {
 			// without a variable of that name the name IS the function: not an undefined variable
